@@ -198,3 +198,13 @@ Proof.
   rewrite Nat.add_0_r. induction n as [|n IH]; [reflexivity|].
   cbn [repeat concat]. rewrite filter_app, app_length, IH. destruct cb; reflexivity.
 Qed.
+
+(* ------------------------------------------------------------------ adiabatic interpolation: end points *)
+From QV Require Import C15.Proofs2.
+Theorem ad_ham_endpoints a b d H0 H1 : wfm a b H0 -> wfm a b H1 ->
+  ad_ham 0 d H0 H1 = mscale ZK (d, 0%Z) H0 /\ ad_ham d d H0 H1 = mscale ZK (d, 0%Z) H1.
+Proof.
+  intros W0 W1. unfold ad_ham. rewrite Z.sub_0_r, Z.sub_diag. split.
+  - change (0%Z, 0%Z) with zi0. apply (madd_zeros_r_gen a b); [now apply mscale_wf|exact W1].
+  - change (0%Z, 0%Z) with zi0. rewrite (madd_comm ZK ZL). apply (madd_zeros_r_gen a b); [now apply mscale_wf|exact W0].
+Qed.
